@@ -7,6 +7,7 @@ import (
 	"go/constant"
 	"go/token"
 	"go/types"
+	"sort"
 	"strings"
 
 	"golang.org/x/tools/go/ssa"
@@ -44,7 +45,22 @@ func (m *Model) RunLayout(s *Sink, rule string) {
 			}
 		}
 	}
-	if ai == nil || cui == nil {
+	casesDecided := false
+	if ai != nil {
+		if bad, decided := m.applyInsertsCases(ai); decided {
+			casesDecided = true
+			fk := fnKey(ai)
+			if bad == "" {
+				s.OK(rule, fk+"|an insert without a reserve is an error", m.Pos(ai.Pos()), "case evaluation of ApplyInserts on a layout with the reserves a, b and c: every subset of {a, b, c} as inserts links each reserve to the insert of its own name (the others stay empty) and returns no error; {a, zzz}, {c, zzz} and {zzz} return an error")
+				s.OK(rule, fk+"|a reserve is filled by the insert of the same name", m.Pos(ai.Pos()), "case evaluation (see above)")
+			} else {
+				s.Violation(rule, fk+"|an insert without a reserve is an error", m.Pos(ai.Pos()), "%s", bad)
+			}
+		}
+	}
+	if casesDecided {
+		// decided by cases; the structural reading below is the fallback
+	} else if ai == nil || cui == nil {
 		s.Undecided(rule, "ApplyInserts", "-", "ApplyInserts / checkUndefinedInsert not found")
 	} else {
 		fk := fnKey(ai)
@@ -259,6 +275,11 @@ func (m *Model) RunLayout(s *Sink, rule string) {
 				}
 			}
 		}
+		// by cases (the structural reading above is the fallback): ApplyLayout run on a page with two statements and a
+		// use statement: afterwards the page's statement list is exactly [the use statement], and it carries the layout
+		if stmtsOK, progOK, decided := m.applyLayoutCase(al); decided {
+			okStmts, okProg = stmtsOK, progOK
+		}
 		check(fnKey(al)+"|page text outside inserts is dropped", m.Pos(al.Pos()), okStmts,
 			"the page's statements are replaced by the single use statement",
 			"ApplyLayout does not replace the page's statements by exactly the use statement: page text outside inserts would be rendered")
@@ -346,9 +367,19 @@ func (m *Model) RunLayout(s *Sink, rule string) {
 			}, 0)
 			ok = isLayout && hasUse
 		}
-		check(fnKey(eu)+"|a layout that uses a layout is an error", m.Pos(eu.Pos()), ok,
-			"the error is returned exactly under Program.IsLayout && Program.HasUseStmt()",
-			"a layout that itself declares @use is not rejected")
+		// by cases (the structural reading above is the fallback): Eval of a use statement whose program is / is not a
+		// layout and has / has no @use of its own
+		if bad, decided := m.nestedLayoutCases(); decided {
+			if bad == "" {
+				s.OK(rule, fnKey(eu)+"|a layout that uses a layout is an error", m.Pos(eu.Pos()), "case evaluation of Eval on a use statement for the four combinations of IsLayout and \"has a @use of its own\": an error object exactly when both hold, the layout's program evaluated otherwise")
+			} else {
+				s.Violation(rule, fnKey(eu)+"|a layout that uses a layout is an error", m.Pos(eu.Pos()), "%s", bad)
+			}
+		} else {
+			check(fnKey(eu)+"|a layout that uses a layout is an error", m.Pos(eu.Pos()), ok,
+				"the error is returned exactly under Program.IsLayout && Program.HasUseStmt()",
+				"a layout that itself declares @use is not rejected")
+		}
 	}
 	// the layout itself is evaluated with the data of the call: no extra scope, no extra variables
 	if eu := m.Method("evaluator", "Evaluator", "evalUseStmt"); eu != nil {
@@ -615,4 +646,209 @@ func describeAny(v any) string {
 		return "an unknown value"
 	}
 	return fmt.Sprintf("%v", v)
+}
+
+// nestedLayoutCases: Eval on a use statement whose program is / is not marked as a layout and has / has not a use
+// statement of its own. decided=false when the evaluation cannot be followed.
+func (m *Model) nestedLayoutCases() (bad string, decided bool) {
+	ev := m.Method("evaluator", "Evaluator", "Eval")
+	useT, progT, errT := m.namedType("ast", "UseStmt"), m.namedType("ast", "Program"), m.namedType("object", "Error")
+	if ev == nil || useT == nil || progT == nil || errT == nil {
+		return "", false
+	}
+	fieldIdx := func(t *types.Named, name string) int {
+		st := t.Underlying().(*types.Struct)
+		for i := 0; i < st.NumFields(); i++ {
+			if canonFieldName(t, i, st.Field(i).Name()) == name {
+				return i
+			}
+		}
+		return -1
+	}
+	fProg, fIsLayout, fUse := fieldIdx(useT, "Program"), fieldIdx(progT, "IsLayout"), fieldIdx(progT, "UseStmt")
+	if fProg < 0 || fIsLayout < 0 || fUse < 0 {
+		return "", false
+	}
+	for _, isLayout := range []bool{true, false} {
+		for _, hasUse := range []bool{true, false} {
+			var inner any = iNil{}
+			if hasUse {
+				inner = &iStruct{typ: useT, fields: map[int]any{}}
+			}
+			prog := &iStruct{typ: progT, fields: map[int]any{fIsLayout: constant.MakeBool(isLayout), fUse: inner}}
+			node := &iStruct{typ: useT, fields: map[int]any{fProg: prog}}
+			progRes := &iStruct{typ: m.namedType("object", "HTML"), fields: map[int]any{}}
+			nProg := 0
+			ip := &Interp{m: m, useGlobals: true}
+			ip.call = func(c *ssa.Call, args []any) (any, bool) {
+				sc := c.Call.StaticCallee()
+				if sc == ev && len(args) >= 2 {
+					if args[1] == any(prog) {
+						nProg++
+						return progRes, true
+					}
+					return nil, true
+				}
+				if sc != nil && m.InModule(sc) && sc.Signature.Results().Len() == 1 && types.Identical(sc.Signature.Results().At(0).Type(), types.NewPointer(errT)) {
+					return &iStruct{typ: errT, fields: map[int]any{}}, true
+				}
+				return nil, false
+			}
+			res, known := ip.Run(ev, []any{iObj{"evaluator"}, node, iObj{"env"}})
+			if ip.stuck != "" || len(ip.lost) > 0 {
+				return "", false
+			}
+			o, isO := res.(*iStruct)
+			isErr := known && isO && o.typ == errT
+			switch {
+			case isLayout && hasUse && (!isErr || nProg != 0):
+				return "Eval of a use statement whose program is a layout with a @use of its own is not an error (or evaluates that layout): a layout that itself uses a layout is not rejected", true
+			case !(isLayout && hasUse) && (isErr || nProg != 1):
+				return fmt.Sprintf("Eval of a use statement whose program has IsLayout=%v and %s does not evaluate the layout's program exactly once (evaluated %d times, error: %v)", isLayout, map[bool]string{true: "a @use of its own", false: "no @use of its own"}[hasUse], nProg, isErr), true
+			}
+		}
+	}
+	return "", true
+}
+
+// applyLayoutCase runs ApplyLayout on an abstract page {UseStmt: u, Statements: [text, u]} and an abstract layout.
+func (m *Model) applyLayoutCase(al *ssa.Function) (stmtsOK, progOK, decided bool) {
+	progT, useT, htmlT := m.namedType("ast", "Program"), m.namedType("ast", "UseStmt"), m.namedType("ast", "HTMLStmt")
+	if progT == nil || useT == nil || htmlT == nil || len(al.Params) != 2 {
+		return false, false, false
+	}
+	fieldIdx := func(t *types.Named, name string) int {
+		st := t.Underlying().(*types.Struct)
+		for i := 0; i < st.NumFields(); i++ {
+			if canonFieldName(t, i, st.Field(i).Name()) == name {
+				return i
+			}
+		}
+		return -1
+	}
+	fUse, fStmts, fProg := fieldIdx(progT, "UseStmt"), fieldIdx(progT, "Statements"), fieldIdx(useT, "Program")
+	if fUse < 0 || fStmts < 0 || fProg < 0 {
+		return false, false, false
+	}
+	use := &iStruct{typ: useT, fields: map[int]any{fProg: iNil{}}}
+	text := &iStruct{typ: htmlT, fields: map[int]any{}}
+	// a page with text, an assignment, an expression and an @if around its use statement: whatever the kinds of its
+	// statements are, only the use statement stays
+	elems := []any{}
+	for _, tn := range []string{"AssignStmt", "HTMLStmt", "ExpressionStmt", "IfStmt"} {
+		if nt := m.namedType("ast", tn); nt != nil {
+			elems = append(elems, &iStruct{typ: nt, fields: map[int]any{}})
+		}
+	}
+	elems = append(elems, use, text)
+	page := &iStruct{typ: progT, fields: map[int]any{fUse: use, fStmts: iSlice{&iArr{elems: elems}, 0, len(elems)}}}
+	layout := &iStruct{typ: progT, fields: map[int]any{}}
+	ip := &Interp{m: m, useGlobals: true}
+	ip.Run(al, []any{page, layout})
+	if ip.stuck != "" || len(ip.lost) > 0 {
+		return false, false, false
+	}
+	sl, isSl := page.fields[fStmts].(iSlice)
+	if !isSl {
+		return false, false, false
+	}
+	stmtsOK = sl.high-sl.lo == 1 && sl.arr != nil && sl.lo < len(sl.arr.elems) && sl.arr.elems[sl.lo] == any(use)
+	progOK = use.fields[fProg] == any(layout)
+	return stmtsOK, progOK, true
+}
+
+// applyInsertsCases runs ApplyInserts on an abstract layout whose table of reserves holds a and b, for five tables of
+// inserts. decided=false when the evaluation cannot be followed.
+func (m *Model) applyInsertsCases(ai *ssa.Function) (bad string, decided bool) {
+	progT, resT, insT, litT := m.namedType("ast", "Program"), m.namedType("ast", "ReserveStmt"), m.namedType("ast", "InsertStmt"), m.namedType("ast", "StringLiteral")
+	if progT == nil || resT == nil || insT == nil || litT == nil || len(ai.Params) != 3 {
+		return "", false
+	}
+	fieldIdx := func(t *types.Named, name string) int {
+		st := t.Underlying().(*types.Struct)
+		for i := 0; i < st.NumFields(); i++ {
+			if canonFieldName(t, i, st.Field(i).Name()) == name {
+				return i
+			}
+		}
+		return -1
+	}
+	fRes, fRName, fRIns, fIName, fLit := fieldIdx(progT, "Reserves"), fieldIdx(resT, "Name"), fieldIdx(resT, "Insert"), fieldIdx(insT, "Name"), fieldIdx(litT, "Value")
+	if fRes < 0 || fRName < 0 || fRIns < 0 || fIName < 0 || fLit < 0 {
+		return "", false
+	}
+	lit := func(n string) *iStruct {
+		return &iStruct{typ: litT, fields: map[int]any{fLit: constant.MakeString(n)}}
+	}
+	mkMap := func(entries map[string]any) *iMap {
+		mp := &iMap{vals: map[string]any{}, kval: map[string]constant.Value{}}
+		var ks []string
+		for k := range entries {
+			ks = append(ks, k)
+		}
+		sort.Strings(ks)
+		for _, k := range ks {
+			kc := constant.MakeString(k)
+			mp.keys = append(mp.keys, kc.ExactString())
+			mp.vals[kc.ExactString()] = entries[k]
+			mp.kval[kc.ExactString()] = kc
+		}
+		return mp
+	}
+	for _, names := range [][]string{{}, {"a"}, {"b"}, {"c"}, {"a", "c"}, {"b", "c"}, {"a", "b", "c"}, {"a", "zzz"}, {"zzz"}, {"c", "zzz"}} {
+		reserves := map[string]*iStruct{}
+		rEntries := map[string]any{}
+		for _, n := range []string{"a", "b", "c"} {
+			reserves[n] = &iStruct{typ: resT, fields: map[int]any{fRName: lit(n), fRIns: iNil{}}}
+			rEntries[n] = reserves[n]
+		}
+		inserts := map[string]*iStruct{}
+		iEntries := map[string]any{}
+		wantErr := false
+		for _, n := range names {
+			inserts[n] = &iStruct{typ: insT, zeroed: true, fields: map[int]any{fIName: lit(n)}}
+			iEntries[n] = inserts[n]
+			if n != "a" && n != "b" && n != "c" {
+				wantErr = true
+			}
+		}
+		layout := &iStruct{typ: progT, fields: map[int]any{fRes: mkMap(rEntries)}}
+		ip := &Interp{m: m, useGlobals: true}
+		errT := m.namedType("fail", "Error")
+		ip.call = func(c *ssa.Call, args []any) (any, bool) {
+			sc := c.Call.StaticCallee()
+			if sc != nil && shortPkg(fnPkgPath(sc)) == "fail" && errT != nil {
+				return &iStruct{typ: errT, fields: map[int]any{}}, true
+			}
+			if c.Call.IsInvoke() && c.Call.Method.Name() == "Line" {
+				return constant.MakeInt64(1), true
+			}
+			return nil, false
+		}
+		res, known := ip.Run(ai, []any{layout, mkMap(iEntries), constant.MakeString("/abs/layout.tw")})
+		if ip.stuck != "" || len(ip.lost) > 0 || !known {
+			return "", false
+		}
+		_, isNil := res.(iNil)
+		what := fmt.Sprintf("inserts %v on a layout with the reserves a, b and c", names)
+		if wantErr && isNil {
+			return "ApplyInserts with " + what + " returns no error: an insert that names no reserve of the layout is silently dropped", true
+		}
+		if !wantErr && !isNil {
+			return "ApplyInserts with " + what + " returns an error although every insert names a reserve", true
+		}
+		if !wantErr {
+			for _, n := range []string{"a", "b", "c"} {
+				got := reserves[n].fields[fRIns]
+				if ins, have := inserts[n]; have {
+					if got != any(ins) {
+						return "ApplyInserts with " + what + " does not link the reserve " + n + " to the insert of the same name: a page's content appears in the wrong place, or nowhere", true
+					}
+				} else if _, stillNil := got.(iNil); !stillNil {
+					return "ApplyInserts with " + what + " links the reserve " + n + " although the page has no insert of that name", true
+				}
+			}
+		}
+	}
+	return "", true
 }
